@@ -353,9 +353,12 @@ def lockFree (s : Sys) (_t : Tid) : Bool := s.runMutex.isNone
 /-- after the dependency phase: enter `run()` -/
 def afterDeps (s : Sys) (t : Tid) : Sys := s.setPc t .runEnter
 
-/-- the skip path after a failed wait: `wontRun()` then Y proc:skipped -/
+/-- `addDoneProcess(i)`: the instance is recorded under its name in the done registry -/
+def addDone (s : Sys) (i : IId) : Sys := { s with doneM := s.doneM.set (s.nameOf i) (some i) }
+
+/-- the skip path after a failed wait: `addDoneProcess`, `wontRun()`, then Y proc:skipped -/
 def doSkip (s : Sys) (t : Tid) (i : IId) : Sys :=
-  (onProcessEnd s i .skipped).setPc t .procSkipped
+  (onProcessEnd (addDone s i) i .skipped).setPc t .procSkipped
 
 /-- `getRunningProcess(k)` with the lock available: found → Y dep:lookup, else next dependency -/
 def lookupRunning (s : Sys) (t : Tid) (i : IId) (k : Name) (c : Cond) (rest : List (Name × Cond)) : Sys :=
